@@ -98,7 +98,7 @@ func bytesOfStr(x value) []value {
 	case symstr:
 		return []value(x)
 	}
-	panic(engineErr{fmt.Sprintf("UNSUPPORTED bytes of %T", x)})
+	panic(engineErr{fmt.Sprintf("UNSUPPORTED bytes of %T %s", x, toString(x))})
 }
 
 func sameType(x, y types.Type) bool {
